@@ -319,6 +319,22 @@ def run(ctx):
 
     kmsg_path_ignores_silencing(ctx)
     kmsg_record_complete(ctx, "C17")
+    # ---- KillResult::SUCCESS (-> STOP, ruleset pause) only where a victim really yielded a signalled process
+    n_succ = 0
+    for q in ("Oomd::BaseKillPlugin::resumeTryingToKillSomething", "Oomd::BaseKillPlugin::resumeFromPrekillHook", "Oomd::BaseKillPlugin::tryToKillSomething"):
+        f = ctx.fn1(q)
+        ctx.use(f)
+        fs_ = Flow(P, f, cg=ctx.cg, edge_tokens=lambda k, p: ["killed"] if ("tryToLogAndKillCgroup(" in k and p is True) else None)
+        for r in returns(f):
+            if ret_const(f, r) != "SUCCESS":
+                continue
+            n_succ += 1
+            ctx.check(fs_.must(r, "killed"), "SUCCESS-only-after-a-signalled-victim:%s@%d" % (short(f), f.nodes[r].get("line", 0)), "passed_edge", f.loc(r),
+                      "KillResult::SUCCESS is returned only on the edge where tryToLogAndKillCgroup reported a signalled process",
+                      "KillResult::SUCCESS is returned on a path where no victim was signalled: run() answers STOP (and the ruleset pauses, the rest of the chain "
+                      "is skipped) although nothing was killed and no xattr, counter or kmsg record changed", witness_path(f, fs_, r))
+    ctx.counters["SUCCESS_returns"] = n_succ
+    ctx.floor("SUCCESS_returns", 2, "return KillResult::SUCCESS sites in the kill cycle")
     # ---- PluginRet mapping
     krun = ctx.fn1("Oomd::BaseKillPlugin::run")
     fk = Flow(P, krun, cg=ctx.cg)
